@@ -115,21 +115,26 @@ func (f *Field) getArg(name string) (av *ArgValue) {
 
 func (f *Field) sortArgs() (errors []error) {
 	if 0 < len(f.Args) {
-		if ot, _ := f.ConType.(*Object); ot != nil {
-			if fd := ot.fields.get(f.Name); fd != nil {
-				args := make([]*ArgValue, 0, len(f.Args))
-				for _, a := range fd.args.list {
-					args = append(args, f.getArg(a.N))
+		// Any container with fields has to be checked, not just an Object. An
+		// Interface typed container must reject unknown arguments as well.
+		var fd *FieldDef
+		if hf, _ := f.ConType.(HasFields); hf != nil {
+			fd = hf.GetField(f.Name)
+		}
+		if fd != nil {
+			// Every argument provided must be declared. Comparing the number
+			// of arguments is not enough, an undeclared argument can take the
+			// place of a declared one that was left out.
+			for _, av := range f.Args {
+				if fd.getArg(av.Arg) == nil {
+					errors = append(errors, valError(av.line, av.col, "%s is not an argument to %s", av.Arg, f.Name))
 				}
-				if len(args) != len(f.Args) {
-					for _, av := range f.Args {
-						if fd.getArg(av.Arg) == nil {
-							errors = append(errors, valError(av.line, av.col, "%s is not an argument to %s", av.Arg, f.Name))
-						}
-					}
-				}
-				f.Args = args
 			}
+			args := make([]*ArgValue, 0, len(f.Args))
+			for _, a := range fd.args.list {
+				args = append(args, f.getArg(a.N))
+			}
+			f.Args = args
 		}
 	}
 	return
